@@ -20,12 +20,17 @@ def run(tier):
     rep.add_tlc(rb, "every reply of length <= 4 over the ids S-1..S+n for one batch of n <= 3; the modelled outcome is acceptable under the property")
     if len(rb["replay"]) < 1000 or not any(c["permutation"] for c in rb["replay"]):
         raise vlib.ToolError("vacuity: batch reply enumeration incomplete")
-    g.replay_flow(rep, "c12", rb["replay"], timeout=1800, nontrivial=lambda c: not c["permutation"])
+    rows = g.replay_flow(rep, "c12", rb["replay"], timeout=1800, nontrivial=lambda c: not c["permutation"])
+    # the async client is also compared with the model's exact outcome; a difference that the property allows is drift between
+    # code and model (to be looked at), not a violation
+    rep.cov["async_outcomes_differing_from_model_but_acceptable"] = sum(r["n"] for r in rows if r.get("stat") == "model_drift")
     rep.cov["rule"] = ("replay: every reply array of <= 4 responses over {one id below, the batch's ids, one id above} for batches of 1..3 "
-                       "entries (1243 cases, numeric and string ids, every third element an error object) on the async client - outcome "
-                       "must equal the model's - and on the HTTP client (scripted tower service) - outcome must be acceptable under the "
-                       "property: a permutation succeeds positionally; otherwise the call fails or returns exactly n slots each holding its "
-                       "own id's answer or an error, with matching success / failure counts; "
+                       "entries, each with no or one element whose result does not decode into the caller's result type (5851 cases, numeric "
+                       "and string ids, every third element an error object) on the async client and on the HTTP client (scripted tower "
+                       "service) - the outcome must be acceptable under the "
+                       "property: a permutation whose values decode succeeds positionally; otherwise the call fails or returns exactly n slots each holding its "
+                       "own id's answer or an error, never the value of an element that does not decode, with success / failure counts that match "
+                       "the entries and an all-or-errors view (`ok()`) that hands out n values or none; "
                        "design: Inv_Positional / Inv_IdsUnique over all interleavings of two batches and every reply array of <= 3 responses; "
                        "conformance (async client): seeded scenarios with batches of 3 and 2 entries plus single calls in flight, replies "
                        "permuted, with gaps, duplicates, foreign and u64::MAX ids, numeric and string id kinds; the returned BatchResponse "
